@@ -320,7 +320,8 @@ def run_one(case, cnt):
         info["cls"] = "stall"
         cnt["excluded_huge_repeat"] = cnt.get("excluded_huge_repeat", 0) + 1
     elif o.cls == "nonterm":
-        viol(f"does not terminate within the logical budget ({o.steps} events, budget {budget}); input starts: {brief}", known_key(texts, o))
+        how = "keeps allocating: stopped by the memory guard after" if asm.CLOCK.mem_fired else "does not terminate within the logical budget"
+        viol(f"{how} ({o.steps} events, budget {budget}); input starts: {brief}", known_key(texts, o))
     elif o.cls == "fail" and not o.errors:
         viol(f"assembly failed without any error diagnostic (events: {[(e['sev'], e['id']) for e in o.events][:5]}); input starts: {brief}")
     elif o.cls == "fail" and case["handler"] != "record" and not any(sev == "error" for sev, _ in shown):
